@@ -54,7 +54,7 @@ KINDS = [
     lambda k: J("Bar", k, [("p", Etag("b", [T("pt"), dep("propdep")])), ("class_", "c")]),
     lambda k: J("Ns.Baz", k, [("q", J("Qux", [dep("compprop")]))], "append"),
     lambda k: Etag("div", k),
-    lambda k: Etag("span", k, [("class", "k")], False),
+    lambda k: Etag("span", k, [("class", ["H", "k"]), ("title", "t")], False),
 ]
 RED_LEAVES = [T("s"), dep("leafdep"), ["XJ", Etag("p", [dep("xtagdep")])]]
 
@@ -109,7 +109,7 @@ def expected_node(spec):
         return expected_node(spec[1])
     if k == "E":
         _, name, ws, attrs, kids = spec
-        props = [(a, ("str", str(v))) for a, v in attrs]
+        props = [(a, ("str", v[1] if isinstance(v, list) else str(v))) for a, v in attrs]
         ch = [n for n in (expected_node(c) for c in kids) if n is not None]
         return ("el", ("tag", name), props, ch)
     if k == "J":
@@ -295,17 +295,49 @@ def fn_seq(case):
     return (True, None, viols)
 
 
+def fn_copy(ti):
+    """a copied component is a component of its own: props set on the copy are normalised like any
+    other, appear once, and never reach the original."""
+    import copy
+    spec = SEQ_TREES[ti]
+    x = build(spec)
+    s0 = snap(x)
+    c = copy.copy(x)
+    c.attrs["data_value"] = "v1"
+    c.attrs.update(class_="kk", x__=3)
+    c.append("copy-child")
+    viols = []
+    if snap(x) != s0:
+        viols.append(("copy:aliases-original", "changing a copied component changed the original", {}))
+    res = c.tagify()
+    texts = [t for t in res.children if isinstance(t, str) or type(t).__name__ == "HTML"]
+    try:
+        got = parse_expression(extract_expression(str(texts[0])))
+        names = [k for k, _ in got[2]]
+        for want in ("data-value", "class", "x-"):
+            if names.count(want) != 1:
+                viols.append(("copy:prop-names", f"prop {want!r} appears {names.count(want)} times in the copy's "
+                              f"expression (props: {names})", {}))
+        if any("_" in n for n in names if n not in [a for a, _ in spec[2]]):
+            viols.append(("copy:unnormalised-prop", f"un-normalised prop name in {names}", {}))
+        if ("str", "copy-child") not in got[3]:
+            viols.append(("copy:child", "child appended to the copy is missing", {}))
+    except (JSParseError, ValueError, IndexError) as e:
+        viols.append(("copy:unparsable", f"{e}", {}))
+    return (True, None, viols, 2)
+
+
 def fn_allow(case):
     from htmltools._jsx import JSXTag, jsx_tag_create
-    allowed, given = case
+    allowed, given, val = case
     viols = []
     ok = all(g in allowed for g in given)
     for how in ("class", "factory"):
         try:
             if how == "class":
-                JSXTag("Foo", "child", allowedProps=list(allowed), **{g: 1 for g in given})
+                JSXTag("Foo", "child", allowedProps=list(allowed), **{g: val for g in given})
             else:
-                jsx_tag_create("Foo", list(allowed))("child", **{g: 1 for g in given})
+                jsx_tag_create("Foo", list(allowed))("child", **{g: val for g in given})
             raised = False
         except NotImplementedError:
             raised = True
@@ -346,6 +378,8 @@ def plan(tier):
     names = ["p", "q", "r"]
     subsets = [list(c) for r in range(0, 4) for c in itertools.combinations(names, r)]
     out.append(dict(kind="space", name="allow-list", fn=fn_allow,
-                    space=Prod(Const([s for s in subsets if s]), Const(subsets)),
-                    note="allowedProps (non-empty subsets of {p,q,r}) x given props (all subsets)"))
+                    space=Prod(Const([s for s in subsets if s]), Const(subsets), Const([1, None, 0, False, "", []])),
+                    note="allowedProps (non-empty subsets of {p,q,r}) x given props (all subsets) x 6 prop values incl. None"))
+    out.append(dict(kind="space", name="copied-components", fn=fn_copy, space=Const(list(range(len(SEQ_TREES)))),
+                    note="copy.copy(component), then props / children set on the copy"))
     return out
